@@ -90,6 +90,19 @@ def _observe(sid, ver, etm):
                     return orig_(key, *a, **kw)
                 return w
             setattr(RL, fn, mk(fn, orig))
+    # ... and the construction of the record MACs: key and digest as handed to the factory
+    mackeys = []
+    for fn in ("createMAC_SSL", "createHMAC"):
+        orig = getattr(RL, fn)
+        patched[fn] = orig
+
+        def mkm(orig_):
+            def w(key, *a, **kw):
+                dm = kw.get("digestmod", a[0] if a else None)
+                mackeys.append((bytes(key), dm if isinstance(dm, str) else getattr(dm, "__name__", str(dm))))
+                return orig_(key, *a, **kw)
+            return w
+        setattr(RL, fn, mkm(orig))
     msgs = []
 
     def hook(conn, ep):
@@ -172,7 +185,28 @@ def _observe(sid, ver, etm):
         p.write("c", b"after-ku")
         o = p.read("s", None, 8)
         data_ok = data_ok and o.ok and bytes(o.value or b"") == b"after-ku"
+    # the record MAC recomputed with hashlib/hmac only: SSLv3 MAC (RFC 6101 5.2.3.1: 48 pad bytes for MD5, 40 for
+    # SHA-1) / HMAC of the hash the suite names, over a probe message, with the key the factory was given
+    mac_probe = "n/a"
+    if ws.macContext is not None:
+        probe = b"verif-mac-probe" * 5
+        ctx = ws.macContext.copy()
+        ctx.update(bytearray(probe))
+        have = bytes(ctx.digest())
+        mac_probe = "mismatch"
+        hname = {"SHA": "sha1", "MD5": "md5", "SHA256": "sha256", "SHA384": "sha384"}.get(toks[-1])
+        if hname:
+            for key, _dm in mackeys:
+                if ver == (3, 0):
+                    npad = {"md5": 48, "sha1": 40}.get(hname, 0)
+                    inner = hashlib.new(hname, key + b"\x36" * npad + probe).digest()
+                    want = hashlib.new(hname, key + b"\x5c" * npad + inner).digest()
+                else:
+                    want = hmac.new(key, probe, hname).digest()
+                if want == have:
+                    mac_probe = "ok"
     out["obs"] = {"ev": "OBS", "negotiated": True, "ver": ver[1], "etm": bool(ws.encryptThenMAC), "kuPrf": kuprf,
+                  "macProbe": mac_probe,
                   "ske": ske, "cert": cert, "certKey": ck, "factory": factory, "keyLen": klen,
                   "fixedIv": len(ws.fixedNonce) if ws.fixedNonce else 0,
                   "macLen": ws.macContext.digest_size if ws.macContext is not None else 0,
